@@ -765,7 +765,12 @@ def compare_history(ctx, fx, ops, log, mouts, hid, note=True):
         shape, labels = s_ans[1], s_ans[2]
         if e['arr'] is None:
             if len(labels) > 0:
-                ctx.disagree(sig0 + ';what=raises', case(n), e['exc'], shape,
+                # dask.array.slicing.take divides by an average chunk size of 0 when the first stage left fewer
+                # elements than (partly empty) chunks on the axis of a repeating / unsorted list (C04's open F37;
+                # cause in dask, an exception, not wrong data): narrow signature of its own (C01r-F2)
+                dask_take = 'range() arg 3 must not be zero' in (e['exc'] or '')
+                ctx.disagree(('fmt=%s;read;what=raises(range() arg 3 must not be zero)' % fmt) if dask_take
+                             else sig0 + ';what=raises', case(n), e['exc'], shape,
                              'a read that selects at least one element raised', spec=shape)
             else:
                 # empty answers: ConcatenatedLazyIndexer raises for empty heads / tails (open C05 findings F10, F10b)
